@@ -679,10 +679,8 @@ Proof.
   destruct H as (ael & _ & _ & _ & Hin & _). cbv zeta. rewrite Hin. cbn [fst].
   pose proof (make_assertion_fields cfg rt rq s now tnow addr (rnd_saml rnd)) as F. cbv zeta in F.
   destruct F as (_ & _ & _ & _ & Fn & _ & _ & _ & _ & _ & _ & _ & _ & _ & Fa & Fi & _ & Fat).
-  rewrite Fat. repeat split; auto.
-  - apply session_attributes_from.
-  - apply session_attributes_custom.
-  - apply session_attributes_groups.
+  rewrite Fat. split; [exact Fn|]. split; [exact Fi|]. split; [exact Fa|].
+  split; [apply session_attributes_from|]. split; [apply session_attributes_custom | apply session_attributes_groups].
 Qed.
 
 Theorem respond_both_signed cfg cp rt rq s now tnow addr relay rnd action resp rl :
@@ -1120,10 +1118,17 @@ Proof.
   cbn [forallb] in Hl. apply andb_true_iff in Hl. destruct Hl as [Hx Hr].
   cbn [tr_list]. rewrite (H x Hx), (IH Hr). reflexivity.
 Qed.
+Lemma tr_nameid_ok n : nameid_clean n = true -> tr_nameid n = Some n.
+Proof.
+  unfold nameid_clean, tr_nameid. intro H. rewrite !andb_true_iff in H. destruct H as [[[Hf Hq] Hs] Hv].
+  rewrite (tr_attr_ok _ Hf), (tr_attr_ok _ Hq), (tr_attr_ok _ Hs), (tr_text_ok _ Hv). destruct n; reflexivity.
+Qed.
 Lemma tr_value_ok v : value_clean v = true -> tr_value v = Some v.
 Proof.
-  unfold value_clean, tr_value. intro H. apply andb_true_iff in H. destruct H as [Ht Hv].
-  rewrite (tr_attr_ok _ Ht), (tr_text_ok _ Hv). destruct v; reflexivity.
+  unfold value_clean, tr_value. intro H. rewrite !andb_true_iff in H. destruct H as [[Ht Hv] Hn].
+  rewrite (tr_attr_ok _ Ht), (tr_text_ok _ Hv). destruct v as [t x [n|]]; cbn [av_nameid] in *.
+  - rewrite (tr_nameid_ok _ Hn). reflexivity.
+  - reflexivity.
 Qed.
 Lemma tr_attribute_ok a : attribute_clean a = true -> tr_attribute a = Some a.
 Proof.
@@ -1411,3 +1416,14 @@ Proof.
   { unfold c08s_ctx. destruct (make_assertion _ _ _ _ _ _ _ _) as [a rand']. reflexivity. }
   rewrite Hb in P. apply posts_only_raw. exact P.
 Qed.
+
+(* ---------- C05: the metadata parser's endpoint rule ---------- *)
+(* what the IdP routes by never depends on the ResponseLocation attribute, and the
+   parsed Location is the document's Location or blank *)
+Theorem parse_endpoint_ignores_response_location b l rl rl' i d :
+  parse_endpoint {| re_binding := b; re_location := l; re_response_location := rl; re_index := i; re_default := d |}
+  = parse_endpoint {| re_binding := b; re_location := l; re_response_location := rl'; re_index := i; re_default := d |}.
+Proof. reflexivity. Qed.
+Theorem parse_endpoint_location r :
+  ep_location (parse_endpoint r) = re_location r \/ ep_location (parse_endpoint r) = "".
+Proof. unfold parse_endpoint. cbn [ep_location]. destruct (mem_str (re_binding r) known_bindings); auto. Qed.
